@@ -233,6 +233,36 @@ theorem C17_records_getitem (vals : W → Dict String X) (pts : List (Int × W))
       simp [mapE, hx, hr]
   rw [h2]
 
+/-- **name spaces** — `name` is ANY string, in particular one that the evaluator object also uses for an attribute,
+property or method of its own (`log`, `period`, `last`, `verbose`, `epochs`, `names`, `metrics`, `past_values`,
+`get_value`, `__len__`, …; `own` = the names Python's normal lookup resolves):
+* subscripting `evaluator[name]` is the recorded values of `name`, whatever `own` is;
+* attribute syntax `evaluator.name` is the same array exactly when `name ∉ own`, and the evaluator's own attribute
+  (never the recorded values, `__getattr__` is not consulted) when `name ∈ own`. -/
+theorem C17_records_getattr (own : List String) (vals : W → Dict String X) (pts : List (Int × W)) (s : EvalState X V)
+    (hs : s.past = recordsOf vals pts) (name : String) (g : W → X)
+    (hg : ∀ x ∈ pts, (vals x.2).getItem name = .ok (g x.2)) :
+    s.getItem name = .ok (pts.map (fun x => g x.2)) ∧
+    (name ∉ own → s.getAttr own name = .ok (.dynamic (pts.map (fun x => g x.2)))) ∧
+    (name ∈ own → s.getAttr own name = .ok (.own name)) := by
+  have h := C17_records_getitem (V := V) vals pts s hs name g hg
+  refine ⟨h, fun hn => ?_, fun hn => ?_⟩
+  · simp [EvalState.getAttr, pyGetattr, hn, h]
+  · simp [EvalState.getAttr, pyGetattr, hn]
+
+/-- the same rule one level down, on `ObservableStatistics`: `stats[statistic]` is always the plural-stripping lookup in
+the recorded dicts (`obsStatGet`, see `C17_records_observable_statistics`), even for a statistic called `data`;
+`stats.statistic` is that lookup iff the name is not one of the object's own attributes (`data`, dunders), and an
+untracked non-own name is an `AttributeError` in both syntaxes. -/
+theorem C17_records_statistics_getattr (own : List String) (data : List (Dict String V)) (statistic : String) :
+    (statistic ∉ own → ∀ r, obsStatGet data statistic = .ok r → obsStatGetAttr own data statistic = .ok (.dynamic r)) ∧
+    (statistic ∉ own → ∀ e, obsStatGet data statistic = .error e → obsStatGetAttr own data statistic = .error e) ∧
+    (statistic ∈ own → obsStatGetAttr own data statistic = .ok (.own statistic)) := by
+  refine ⟨fun hn r hr => ?_, fun hn e he => ?_, fun hn => ?_⟩
+  · simp [obsStatGetAttr, pyGetattr, hn, hr]
+  · simp [obsStatGetAttr, pyGetattr, hn, he]
+  · simp [obsStatGetAttr, pyGetattr, hn]
+
 /-- a name that is not tracked is an `AttributeError` (as soon as there is at least one record; with an
 empty history the code returns an empty array for every name) -/
 theorem C17_records_getitem_missing (vals : W → Dict String X) (pts : List (Int × W)) (s : EvalState X V)
@@ -758,6 +788,15 @@ example : StatsWF ([("sx", [("mean", 1), ("variance", 2), ("std_error", 3), ("nu
 /-- plural stripping of `ObservableStatistics` -/
 example : stripPlural "means" = "mean" ∧ stripPlural "std_errors" = "std_error" ∧
     stripPlural "num_samples" = "num_sample" ∧ stripPlural "variance" = "variance" := by decide
+
+/-- metrics called "log" and "period" (names the evaluator uses for attributes of its own), period 2: subscripting
+gives the recorded values, attribute syntax the attribute, for a name that does not collide both agree -/
+def exShadow : MetricEvaluator Nat Nat := ⟨2, [("log", fun w => 10 * w), ("period", fun w => w + 1), ("kl", fun w => w)], false⟩
+
+example : (exShadow.run exShadow.init exStream).toOption.map
+      (fun s => ((s.getItem "log").toOption, (s.getAttr ["log", "period", "last"] "log").toOption,
+        (s.getAttr ["log", "period", "last"] "kl").toOption, (s.getValue "period" (some (-1))).toOption))
+    = some (some [20, 40, 60], some (.own "log"), some (.dynamic [2, 4, 6]), some 7) := by decide
 
 end C17
 end QV.Props
